@@ -88,6 +88,9 @@ func tokenizeStream(src io.Reader, normalize bool, dict *dictionary, updateDict 
 	line := 1 // 1s-based count
 	deferredEOL := false
 	deferredWord := false
+	// deferredLines counts the line breaks swallowed after a trailing hyphen
+	// that have not been added to line yet.
+	deferredLines := 0
 	// the tokenizer uses a local dictionary to conserve memory while
 	// analyzing the input doc to avoid polluting the global dictionary
 	ld := newDictionary()
@@ -127,6 +130,7 @@ func tokenizeStream(src io.Reader, normalize bool, dict *dictionary, updateDict 
 					if obuf[len(obuf)-1] == '-' {
 						obuf = obuf[0 : len(obuf)-1]
 						deferredEOL = true
+						deferredLines++
 						continue
 					}
 
@@ -148,6 +152,16 @@ func tokenizeStream(src io.Reader, normalize bool, dict *dictionary, updateDict 
 					doc.Tokens = append(doc.Tokens, indexedToken{
 						ID:   tokID,
 						Line: line})
+				}
+				if deferredLines > 0 {
+					// The word interrupted by the hyphenation ended at this line
+					// break rather than at a space, so the swallowed line breaks
+					// have not been counted yet. Count them now; otherwise every
+					// following line number is too low.
+					line += deferredLines
+					deferredLines = 0
+					deferredEOL = false
+					deferredWord = false
 				}
 				line++
 				continue
@@ -189,7 +203,8 @@ func tokenizeStream(src io.Reader, normalize bool, dict *dictionary, updateDict 
 					deferredWord = false
 					// Increment the line count now so the remainder token is credited
 					// to the previous line number.
-					line++
+					line += deferredLines
+					deferredLines = 0
 				}
 				obuf = make([]byte, 0)
 				continue
